@@ -1,44 +1,59 @@
 """Direction analysis: is a line a non-decreasing / non-increasing function of one
-designated input, everything else fixed?  Abstract interpretation over the line
-graph in the four-point domain CONST < {INC, DEC} < TOP.
+designated input, everything else fixed?
 
-Expressions: sums, differences, products with a sign-known factor, min / max /
-floor-at-zero, rounding, per-copy sums and the tax function are monotone maps.
-Paths: the decisions of a definition form a tree.  A decision that does not depend
-on the input selects one subtree for all values of the input (join).  A decision
-that does - a comparison a < b whose difference b - a itself has a direction - cuts
-the axis in two; the line keeps its direction across the cut only if the value does
-not jump the wrong way where a = b, which is proved with the relational prover of
-C15 (exact Fourier-Motzkin).  Yes/no lines used as decisions are replaced by their
-own definitions first.  Anything else is TOP: a lost proof, never an invented one.
+Every line of the forms is a piecewise-linear function of the input composed with
+monotone step functions (rounding, the tax table, "next multiple of").  Its
+derivative, where it exists, is one of finitely many *candidate forms*: linear
+combinations of the derivatives of the lines it reads (symbols s:<line>), which
+min / max / floor-at-zero choose between.  A line is non-decreasing if every
+candidate form is >= 0 and every cut of the axis made by an input-dependent
+decision (a comparison a < b whose difference has a direction itself) is crossed
+without a downward jump - proved at a = b with the relational prover of C15
+(exact Fourier-Motzkin).  A form whose sign is not evident from the signs of its
+symbols is *unfolded*: a symbol is replaced by the candidate forms of the line it
+stands for, all occurrences at once, so that correlated terms cancel
+(tax - min(credit, tax - other credits) = max(tax - credit, other credits)).
+Monotone transforms scale a form by an unknown non-negative factor (kept as an
+opaque symbol, so nothing cancels across it); a cut that is crossed with a jump
+contributes a jump symbol of the proven sign.  Yes/no lines used as decisions are
+replaced by their own definitions first.  Whatever is not covered is TOP: a lost
+proof, never an invented one.
 
-Regions in which the definition refuses (not implemented) impose nothing: the
-property compares only pairs of returns that both solve.  (A refusing region that
-separates two answering regions is not bridged - stated in the evidence.)"""
+Regions in which a definition refuses impose nothing (the property compares only
+pairs of returns that both solve); a refusing region between two answering ones is
+not bridged - stated in the evidence."""
+from fractions import Fraction
+
 from .amounts import canon
 from .lineabs import E
-from .linform import lin_of, NonLinear
 
 CONST, INC, DEC, TOP = 'const', 'inc', 'dec', 'top'
-BOT = 'bot'          # refuses / no value: compatible with everything
+ONE = '1'
+MAX_FORMS = 96
+MAX_UNFOLD = 14
 
 
-def join(a, b):
-    if a == BOT:
-        return b
-    if b == BOT:
-        return a
-    if a == b:
-        return a
-    if a == CONST:
-        return b
-    if b == CONST:
-        return a
-    return TOP
+def fr(x):
+    if isinstance(x, bool):
+        return Fraction(int(x))
+    if isinstance(x, float):
+        return Fraction(repr(x))
+    return Fraction(x)
 
 
-def flip(a):
-    return {INC: DEC, DEC: INC}.get(a, a)
+def f_add(a, b, sb=1):
+    d = dict(a)
+    for k, v in b:
+        d[k] = d.get(k, 0) + sb * v
+    return tuple(sorted((k, v) for k, v in d.items() if v != 0))
+
+
+def f_scale(a, c):
+    c = fr(c)
+    return tuple(sorted((k, v * c) for k, v in a if v * c != 0))
+
+
+ZERO = ()
 
 
 class Mono:
@@ -46,120 +61,371 @@ class Mono:
         self.an = an
         self.year = year
         self.x = x_atom
-        self.nn = nn                      # canonical atoms known non-negative (C15)
-        self.memo = {}
+        self.nn = nn
+        self.sign_memo = {}
+        self.cand_memo = {}
         self.stack = set()
         self.defs = {}
         for d in an.defs.values():
             if d.year == year:
-                fr = d.fr
-                k = f'v:{fr.form_name}:*.{d.name}' if fr.cls.is_sub_named('InputForm') else f'v:{fr.name}.{d.name}'
+                frm = d.fr
+                k = f'v:{frm.form_name}:*.{d.name}' if frm.cls.is_sub_named('InputForm') else f'v:{frm.name}.{d.name}'
                 self.defs[k] = d
         self.prover_factory = prover_factory
+        self.slope_factory = None
+        self.by_slope = set()
+        self.prove_memo = {}
         self.why = {}
+        self.opaque = 0
+        self.sym_sign = {ONE: '+'}        # symbol -> '+', '-', '0', '?'
 
-    # ------------------------------------------------------------ lines
+    # ------------------------------------------------------------ public
     def line(self, atom):
+        """CONST / INC / DEC / TOP"""
+        s = self.sign_of_line(atom)
+        return {'+': INC, '-': DEC, '0': CONST}.get(s, TOP)
+
+    # ------------------------------------------------------------ symbols
+    def sym(self, atom):
+        """derivative symbol of a line, None when the line does not depend on x"""
+        s = self.sign_of_line(atom)
+        if s == '0':
+            return None
+        k = 's:' + atom
+        self.sym_sign[k] = s
+        return k
+
+    def new_opaque(self, sign):
+        self.opaque += 1
+        k = f'o:{self.opaque}'
+        self.sym_sign[k] = sign
+        return k
+
+    def form_sign(self, f):
+        """'+' / '-' / '0' / None from the signs of the symbols alone"""
+        pos = neg = False
+        for k, v in f:
+            s = self.sym_sign.get(k, '?')
+            if s == '0':
+                continue
+            if s == '?':
+                return None
+            up = (v > 0) == (s == '+')
+            pos |= up
+            neg |= not up
+        if pos and neg:
+            return None
+        return '+' if pos else '-' if neg else '0'
+
+    def opaque_scale(self, forms, factor_sign):
+        """forms multiplied by an unknown factor of the given sign ('+' or '-'): every symbol becomes a fresh opaque one"""
+        out = set()
+        for f in forms:
+            g = []
+            for k, v in f:
+                s = self.sym_sign.get(k, '?')
+                if s == '0':
+                    continue
+                if s == '?':
+                    ns = '?'
+                else:
+                    up = (v > 0) == (s == '+')
+                    ns = '+' if up == (factor_sign == '+') else '-'
+                g.append((self.new_opaque(ns), Fraction(1)))
+            out.add(tuple(sorted(g)))
+        return out
+
+    # ------------------------------------------------------------ line level
+    def sign_of_line(self, atom):
         if atom == self.x:
-            return INC
+            return '+'
         if atom.startswith('i:'):
-            return CONST
-        if atom in self.memo:
-            return self.memo[atom]
+            return '0'
+        if atom in self.sign_memo:
+            return self.sign_memo[atom]
         d = self.defs.get(atom)
         if d is None or d.fr.cls.is_sub_named('InputForm'):
-            return CONST                  # another input (mirror line of an input form), or an absent form's line
+            return '0'
         if atom in self.stack:
-            return TOP
+            return '?'
         self.stack.add(atom)
         try:
-            r = self.definition(d, atom)
+            cs = self.def_cands(atom)
+            if cs is None:
+                s = '?'
+            else:
+                s = self.decide(cs)
+                if s == '?':
+                    bad = next((f for f in sorted(cs) if self.form_sign(f) is None), next(iter(cs)))
+                    self.why.setdefault(atom, 'a candidate form of the derivative has no evident sign: ' + self.show(bad))
+            if s == '?' and self.slope_factory is not None:
+                hint = {'+', '-'}
+                if cs is not None:
+                    # a candidate form that is definitely negative (positive) rules the opposite claim out without a proof attempt
+                    for f in cs:
+                        fs = self.form_sign(f)
+                        if fs == '-':
+                            hint.discard('+')
+                        elif fs == '+':
+                            hint.discard('-')
+                s2 = self.by_regions(d, atom, hint) if hint else '?'
+                if s2 != '?':
+                    s = s2
+                    self.why.pop(atom, None)
+                    self.by_slope.add(atom)
         finally:
             self.stack.discard(atom)
-        self.memo[atom] = r
-        return r
+        self.sign_memo[atom] = s
+        return s
 
-    def depends(self, e):
-        """does the expression depend on x at all"""
-        return self.expr(e) != CONST
+    def by_regions(self, d, atom, hint=('+', '-')):
+        """second stage: the slope is proved region by region with the relational prover; cuts are crossed without a wrong-way jump"""
+        paths = self.expand_flags(d.paths, 0)
+        if paths is None:
+            return '?'
+        items = []
+        for (guards, outcome) in paths:
+            if outcome.kind != 'ret':
+                items.append((guards, None))
+            else:
+                v = outcome.value
+                if isinstance(v, (tuple, list)):
+                    return '?'
+                items.append((guards, 0 if (v is None or v == '' or v is False) else v))
+        js = self.cut_analysis(items, 0, [], atom)
+        if js is None:
+            return '?'
+        ok = {}
+        for want in ('+', '-'):
+            if want in hint and js <= {want}:
+                pr = self.slope_factory(self)
+                try:
+                    ok[want] = bool(pr.prove_slope(atom, want))
+                except Exception:
+                    ok[want] = False
+            else:
+                ok[want] = False
+        if ok['+'] and ok['-']:
+            return '0'
+        return '+' if ok['+'] else '-' if ok['-'] else '?'
 
-    # ------------------------------------------------------------ expressions
-    def expr(self, e):
+    def cut_analysis(self, items, depth, prefix, atom):
+        """signs of the jumps at the input-dependent decisions of the definition ('+' upward as the input grows); None = a cut is not understood"""
+        if not items or all(not g for g, _v in items):
+            return set()
+        if depth > 60:
+            return None
+        first = next(g for g, _v in items if g)[0]
+        c = first[0]
+        key = repr(c)
+        t_items, f_items = [], []
+        for g, v in items:
+            pols = {gg[1] for gg in g if repr(gg[0]) == key}
+            if len(pols) == 2:
+                continue
+            g2 = [gg for gg in g if repr(gg[0]) != key]
+            if not pols:
+                t_items.append((g2, v))
+                f_items.append((g2, v))
+            elif True in pols:
+                t_items.append((g2, v))
+            else:
+                f_items.append((g2, v))
+        if not isinstance(c, E) or self.independent(c):
+            a = self.cut_analysis(t_items, depth + 1, prefix + [(c, True)], atom)
+            b = self.cut_analysis(f_items, depth + 1, prefix + [(c, False)], atom)
+            return None if a is None or b is None else a | b
+        cmp_ = _as_lt(c)
+        if cmp_ is None:
+            return None
+        a, b = cmp_
+        jt = self.cut_analysis(t_items, depth + 1, prefix + [(c, True)], atom)
+        jf = self.cut_analysis(f_items, depth + 1, prefix + [(c, False)], atom)
+        if jt is None or jf is None:
+            return None
+        out = jt | jf
+        diff = self.cands(E('sub', b, a, ty='float'))
+        dd = None
+        if diff is not None:
+            dd = '+' if self.all_sign(diff, '+') else '-' if self.all_sign(diff, '-') else None
+        if dd is None:
+            if self.jump(self.leaves(f_items), self.leaves(t_items), prefix, a, b, atom, True) and \
+                    self.jump(self.leaves(f_items), self.leaves(t_items), prefix, a, b, atom, False):
+                return out            # continuous: no orientation needed
+            return None
+        low, high = (f_items, t_items) if dd == '+' else (t_items, f_items)
+        lows, highs = self.leaves(low), self.leaves(high)
+        up = self.jump(lows, highs, prefix, a, b, atom, True)
+        down = self.jump(lows, highs, prefix, a, b, atom, False)
+        if up and down:
+            return out
+        if up:
+            return out | {'+'}
+        if down:
+            return out | {'-'}
+        return None
+
+    def decide(self, cs):
+        if self.all_sign(cs, '+') and self.all_sign(cs, '-'):
+            return '0'
+        if self.all_sign(cs, '+'):
+            return '+'
+        if self.all_sign(cs, '-'):
+            return '-'
+        return '?'
+
+    def all_sign(self, cs, want):
+        todo = [(f, 0) for f in cs]
+        seen = set()
+        n = 0
+        while todo:
+            f, depth = todo.pop()
+            if f in seen:
+                continue
+            seen.add(f)
+            n += 1
+            if n > 600:
+                return False
+            s = self.form_sign(f)
+            if s == '0' or s == want:
+                continue
+            if depth >= MAX_UNFOLD:
+                return False
+            # unfold one harmful or unknown symbol that stands for a line
+            pick = None
+            for k, v in f:
+                if not k.startswith('s:'):
+                    continue
+                sg = self.sym_sign.get(k, '?')
+                harmful = sg == '?' or ((v > 0) == (sg == '+')) != (want == '+')
+                if harmful and self.cands_of_line(k[2:]) is not None:
+                    pick = k
+                    break
+            if pick is None:
+                return False
+            sub = self.cands_of_line(pick[2:])
+            coeff = dict(f)[pick]
+            rest = tuple((k, v) for k, v in f if k != pick)
+            for g in sub:
+                todo.append((f_add(rest, f_scale(g, coeff)), depth + 1))
+        return True
+
+    def cands_of_line(self, atom):
+        if atom in self.cand_memo:
+            return self.cand_memo[atom]
+        if atom in self.stack and atom not in self.cand_memo:
+            return None
+        return self.def_cands(atom)
+
+    def show(self, f):
+        return ' + '.join(f'{float(v):g}*{k}' for k, v in f) or '0'
+
+    # ------------------------------------------------------------ expressions -> candidate forms
+    def cands(self, e):
+        """set of forms, or None (unknown)"""
         if not isinstance(e, E):
-            return CONST
+            return {ZERO}
         op = e.op
         if op in ('i', 'v'):
-            return self.line(f'{op}:{canon(e.args[0])}')
-        if op == 'add':
-            return self._sum(self.expr(e.args[0]), self.expr(e.args[1]))
-        if op == 'sub':
-            return self._sum(self.expr(e.args[0]), flip(self.expr(e.args[1])))
+            atom = f'{op}:{canon(e.args[0])}'
+            if atom == self.x:
+                return {((ONE, Fraction(1)),)}
+            k = self.sym(atom)
+            return {ZERO} if k is None else {((k, Fraction(1)),)}
+        if op in ('add', 'sub'):
+            a, b = self.cands(e.args[0]), self.cands(e.args[1])
+            if a is None or b is None:
+                return None
+            out = {f_add(x, y, 1 if op == 'add' else -1) for x in a for y in b}
+            return out if len(out) <= MAX_FORMS else None
         if op == 'neg':
-            return flip(self.expr(e.args[0]))
+            a = self.cands(e.args[0])
+            return None if a is None else {f_scale(x, -1) for x in a}
         if op in ('min', 'max'):
-            r = CONST
+            out = set()
             for a in e.args:
-                r = self._sum(r, self.expr(a))
-            return r
+                c = self.cands(a)
+                if c is None:
+                    return None
+                out |= c
+            return out if len(out) <= MAX_FORMS else None
         if op == 'mul':
             a, b = e.args
-            da, db = self.expr(a), self.expr(b)
-            if da == CONST and db == CONST:
-                return CONST
-            sa, sb = self.sign(a), self.sign(b)
-            if da == CONST:
-                return db if sa == '+' else flip(db) if sa == '-' else TOP
-            if db == CONST:
-                return da if sb == '+' else flip(da) if sb == '-' else TOP
-            if sa == '+' and sb == '+' and da == db and da in (INC, DEC):
-                return da
-            return TOP
+            if not isinstance(a, E) and isinstance(a, (int, float)):
+                cb = self.cands(b)
+                return None if cb is None else {f_scale(x, a) for x in cb}
+            if not isinstance(b, E) and isinstance(b, (int, float)):
+                ca = self.cands(a)
+                return None if ca is None else {f_scale(x, b) for x in ca}
+            ca, cb = self.cands(a), self.cands(b)
+            if ca is None or cb is None:
+                return None
+            sa, sb = self.vsign(a), self.vsign(b)
+            if ca == {ZERO} and cb == {ZERO}:
+                return {ZERO}
+            if ca == {ZERO}:
+                return self.opaque_scale(cb, sa) if sa in ('+', '-') else None
+            if cb == {ZERO}:
+                return self.opaque_scale(ca, sb) if sb in ('+', '-') else None
+            if sa in ('+', '-') and sb in ('+', '-'):
+                pa, pb = self.opaque_scale(ca, sb), self.opaque_scale(cb, sa)
+                out = {f_add(x, y) for x in pa for y in pb}
+                return out if len(out) <= MAX_FORMS else None
+            return None
         if op == 'div':
             a, b = e.args
-            da, db = self.expr(a), self.expr(b)
-            if db == CONST:
-                sb = self.sign(b)
-                return da if sb == '+' else flip(da) if sb == '-' else (CONST if da == CONST else TOP)
-            if da == CONST and self.sign(a) == '+' and self.sign(b) == '+':
-                return flip(db)
-            return TOP
+            if not isinstance(b, E) and isinstance(b, (int, float)) and b != 0:
+                ca = self.cands(a)
+                return None if ca is None else {f_scale(x, Fraction(1) / fr(b)) for x in ca}
+            ca, cb = self.cands(a), self.cands(b)
+            if ca is None or cb is None:
+                return None
+            sa, sb = self.vsign(a), self.vsign(b)
+            if cb == {ZERO}:
+                return {ZERO} if ca == {ZERO} else (self.opaque_scale(ca, sb) if sb in ('+', '-') else None)
+            if sa in ('+', '-') and sb == '+':
+                pa = self.opaque_scale(ca, '+')
+                pb = self.opaque_scale(cb, '-' if sa == '+' else '+')
+                out = {f_add(x, y) for x in pa for y in pb}
+                return out if len(out) <= MAX_FORMS else None
+            return None
         if op == 'sumn':
-            return CONST if self.expr(e.args[0]) == CONST and self.expr(e.args[2]) == CONST else \
-                (self.expr(e.args[2]) if self.expr(e.args[0]) == CONST else TOP)
-        if op == 'countif':
-            return CONST if all(self.expr(a) == CONST for a in e.args if isinstance(a, E)) else TOP
+            c = self.cands(e.args[0])
+            if c != {ZERO}:
+                return None
+            return self.cands(e.args[2])
         if op == 'call':
             name = e.args[0]
             args = e.args[1:]
-            if name in ('float', 'round', 'int', 'ceil', 'floor', 'trunc') and args:
-                ds = [self.expr(a) for a in args[1:]]
-                return self.expr(args[0]) if all(d == CONST for d in ds) else TOP
-            if isinstance(name, str) and name.endswith(':figure_tax') and args:
-                ds = [self.expr(a) for a in args[1:]]
-                return self.expr(args[0]) if all(d == CONST for d in ds) else TOP      # non-decreasing (decided by C07, R7 monotone pieces)
-            ds = [self.expr(a) for a in args if isinstance(a, E)]
-            return CONST if all(d == CONST for d in ds) else TOP
-        if op in ('ite',):
-            c, a, b = e.args
-            if self.expr(c) == CONST:
-                return join(self.expr(a), self.expr(b))
-            return TOP
-        # comparisons, boolean connectives, strings, ...
-        ds = [self.expr(a) for a in e.args if isinstance(a, E)]
-        return CONST if all(d == CONST for d in ds) else TOP
+            monotone = name in ('float', 'round', 'int', 'ceil', 'floor', 'trunc') or (isinstance(name, str) and name.endswith(':figure_tax'))
+            if monotone and args:
+                for a in args[1:]:
+                    if self.cands(a) != {ZERO}:
+                        return None
+                c = self.cands(args[0])
+                if c is None:
+                    return None
+                if name == 'float':
+                    return c
+                return self.opaque_scale(c, '+') | {ZERO}          # non-decreasing transform (steps: zero derivative, jumps follow the argument)
+            ok = all(self.cands(a) == {ZERO} for a in args if isinstance(a, E))
+            return {ZERO} if ok else None
+        if op in ('ite', 'loopval'):
+            c, a, b = e.args if op == 'ite' else (None, e.args[1], e.args[2])
+            if c is not None and self.cands(c) != {ZERO}:
+                return None
+            ca, cb = self.cands(a), self.cands(b)
+            if ca is None or cb is None:
+                return None
+            return ca | cb
+        ok = all(self.cands(a) == {ZERO} for a in e.args if isinstance(a, E))
+        return {ZERO} if ok else None
 
-    @staticmethod
-    def _sum(a, b):
-        if a == TOP or b == TOP:
-            return TOP
-        if a == CONST:
-            return b
-        if b == CONST:
-            return a
-        return a if a == b else TOP
+    def independent(self, e):
+        return self.cands(e) == {ZERO}
 
-    def sign(self, e):
-        """'+' non-negative, '-' non-positive, None unknown"""
+    def vsign(self, e):
+        """sign of the *value*: '+' non-negative, '-' non-positive, None unknown"""
         if isinstance(e, bool):
             return '+'
         if isinstance(e, (int, float)):
@@ -171,25 +437,41 @@ class Mono:
         if e.op == 'v':
             k = f'v:{canon(e.args[0])}'
             return '+' if (k in self.nn or e.ty == 'bool') else None
-        if e.op in ('add', 'min', 'max', 'mul', 'div') and all(self.sign(a) == '+' for a in e.args):
+        if e.op in ('add', 'min', 'mul', 'div') and all(self.vsign(a) == '+' for a in e.args):
             return '+'
-        if e.op == 'max' and any(self.sign(a) == '+' for a in e.args):
+        if e.op == 'max' and any(self.vsign(a) == '+' for a in e.args):
             return '+'
         if e.op == 'call' and e.args[0] in ('float', 'round', 'int', 'ceil') and len(e.args) >= 2:
-            return self.sign(e.args[1])
+            return self.vsign(e.args[1])
         if e.op == 'neg':
-            s = self.sign(e.args[0])
-            return {'+': '-', '-': '+'}.get(s)
+            return {'+': '-', '-': '+'}.get(self.vsign(e.args[0]))
         if e.op == 'sumn':
-            return self.sign(e.args[2])
+            return self.vsign(e.args[2])
         return None
 
     # ------------------------------------------------------------ definitions
-    def definition(self, d, atom):
+    def def_cands(self, atom):
+        if atom in self.cand_memo:
+            return self.cand_memo[atom]
+        d = self.defs.get(atom)
+        if d is None:
+            return None
+        guard = ('cand', atom)
+        if guard in self.stack:
+            return None
+        self.stack.add(guard)
+        try:
+            r = self._def_cands(d, atom)
+        finally:
+            self.stack.discard(guard)
+        self.cand_memo[atom] = r
+        return r
+
+    def _def_cands(self, d, atom):
         paths = self.expand_flags(d.paths, 0)
         if paths is None:
             self.why[atom] = 'a yes/no line used as a decision could not be replaced by its definition'
-            return TOP
+            return None
         items = []
         for (guards, outcome) in paths:
             if outcome.kind != 'ret':
@@ -198,15 +480,14 @@ class Mono:
                 v = outcome.value
                 if isinstance(v, (tuple, list)):
                     self.why[atom] = 'tuple value'
-                    return TOP
+                    return None
                 items.append((guards, 0 if (v is None or v == '' or v is False) else v))
         r, why = self.tree(items, 0, [], atom)
-        if r == TOP and why:
+        if r is None and why:
             self.why.setdefault(atom, why)
-        return CONST if r == BOT else r
+        return r
 
     def expand_flags(self, paths, depth):
-        """[(guards, outcome)] with decisions on x-dependent yes/no lines replaced by the decisions of those lines"""
         out = []
         for p in paths:
             guards = list(p.guards) if hasattr(p, 'guards') else list(p[0])
@@ -214,7 +495,7 @@ class Mono:
             variants = [([], True)]
             for g in guards:
                 c, pol = g[0], g[1]
-                if isinstance(c, E) and c.op == 'v' and c.ty == 'bool' and self.expr(c) != CONST:
+                if isinstance(c, E) and c.op == 'v' and c.ty == 'bool' and not self.independent(c):
                     if depth > 3:
                         return None
                     fd = self.defs.get(f'v:{canon(c.args[0])}')
@@ -226,7 +507,7 @@ class Mono:
                     alts = []
                     for (fg, fo) in sub:
                         if fo.kind != 'ret':
-                            alts.append((list(fg), None))          # the flag refuses: so does this path
+                            alts.append((list(fg), None))
                             continue
                         fv = fo.value
                         if isinstance(fv, E):
@@ -243,102 +524,116 @@ class Mono:
         return out
 
     def tree(self, items, depth, prefix, atom):
-        """items: [(remaining guards, value | None)] all consistent with `prefix` -> (direction, reason)"""
+        """items: [(remaining guards, value | None)] -> (candidate forms | None, reason)"""
         if not items:
-            return BOT, None
+            return set(), None
         if all(not g for g, _v in items):
-            r = BOT
+            out = set()
             for _g, v in items:
-                r = join(r, BOT if v is None else self.expr(v))
-            return r, (None if r != TOP else f'value {_short(items[0][1])} has no direction')
-        if depth > 40:
-            return TOP, 'decision tree too deep'
-        # next decision: the first guard of the first item that still has one
+                if v is None:
+                    continue
+                c = self.cands(v)
+                if c is None:
+                    return None, f'value {_short(v)} is outside the monotone fragment'
+                out |= c
+            return out, None
+        if depth > 60:
+            return None, 'decision tree too deep'
         first = next(g for g, _v in items if g)[0]
         c = first[0]
         key = repr(c)
-        t_items, f_items, rest = [], [], []
+        t_items, f_items = [], []
         for g, v in items:
-            if g and repr(g[0][0]) == key:
-                (t_items if g[0][1] else f_items).append((g[1:], v))
+            pols = {gg[1] for gg in g if repr(gg[0]) == key}
+            if len(pols) == 2:
+                continue          # contradictory path (an artefact of combining a flag's paths with the line's)
+            g2 = [gg for gg in g if repr(gg[0]) != key]
+            if not pols:
+                t_items.append((g2, v))
+                f_items.append((g2, v))
+            elif True in pols:
+                t_items.append((g2, v))
             else:
-                # a path that does not take this decision at this position: applies to both sides
-                idx = next((i for i, gg in enumerate(g) if repr(gg[0]) == key), None)
-                if idx is None:
-                    t_items.append((g, v))
-                    f_items.append((g, v))
-                else:
-                    g2 = g[:idx] + g[idx + 1:]
-                    (t_items if g[idx][1] else f_items).append((g2, v))
-        dep = self.expr(c) if isinstance(c, E) else CONST
-        if dep == CONST:
+                f_items.append((g2, v))
+        if not isinstance(c, E) or self.independent(c):
             rt, wt = self.tree(t_items, depth + 1, prefix + [(c, True)], atom)
+            if rt is None:
+                return None, wt
             rf, wf = self.tree(f_items, depth + 1, prefix + [(c, False)], atom)
-            r = join(rt, rf)
-            return r, (wt or wf or (f'branches of {_short(c)} go opposite ways' if r == TOP else None))
-        # a decision that depends on x
+            if rf is None:
+                return None, wf
+            out = rt | rf
+            return (out, None) if len(out) <= MAX_FORMS else (None, 'too many candidate forms')
+        # ---- a decision that depends on x: a cut of the axis
         cmp_ = _as_lt(c)
         if cmp_ is None:
-            return TOP, f'decision {_short(c)} depends on the input and is not a comparison'
+            return None, f'decision {_short(c)} depends on the input and is not a strict comparison'
         a, b = cmp_
-        dd = self._sum(self.expr(b), flip(self.expr(a)))          # direction of b - a:  a < b  is true where b - a > 0
-        if dd not in (INC, DEC):
-            return TOP, f'both sides of {_short(c)} move with the input'
-        low, high = (f_items, t_items) if dd == INC else (t_items, f_items)
-        lowp, highp = ((c, False), (c, True)) if dd == INC else ((c, True), (c, False))
-        rl, wl = self.tree(low, depth + 1, prefix + [lowp], atom)
-        rh, wh = self.tree(high, depth + 1, prefix + [highp], atom)
-        r = join(rl, rh)
-        if r == TOP:
-            return TOP, wl or wh or f'the two sides of {_short(c)} go opposite ways'
-        if r == BOT:
-            return BOT, None
-        # jump at a = b: every answering leaf below on the low side against every answering leaf on the high side
-        lows = self.leaves(low)
-        highs = self.leaves(high)
-        if lows is None or highs is None:
-            return TOP, f'decisions below {_short(c)} depend on the input as well (nested cuts are not composed)'
-        want = [r] if r in (INC, DEC) else [INC, DEC]
-        okdir = None
-        for w in want:
-            good = True
-            for (gl, vl) in lows:
-                for (gh, vh) in highs:
-                    if vl is None or vh is None:
-                        continue
-                    diff = E('sub', vh, vl, ty='float') if w == INC else E('sub', vl, vh, ty='float')
-                    guards = [(gc, gp, None, None) for (gc, gp) in prefix] + list(gl) + list(gh) + \
-                             [(E('lt', a, b, ty='bool'), False, None, None), (E('lt', b, a, ty='bool'), False, None, None)]
-                    if not self.prove(diff, guards, atom):
-                        good = False
-                        break
-                if not good:
-                    break
-            if good:
-                okdir = w
-                break
-        if okdir is None:
-            return TOP, f'the value may jump the wrong way where {_short(a)} = {_short(b)}'
-        return okdir, None
+        # a cut that is crossed continuously needs no orientation: a continuous function that is monotone on each side is monotone
+        rt, wt = self.tree(t_items, depth + 1, prefix + [(c, True)], atom)
+        if rt is None:
+            return None, wt
+        rf, wf = self.tree(f_items, depth + 1, prefix + [(c, False)], atom)
+        if rf is None:
+            return None, wf
+        out = rt | rf
+        diff = self.cands(E('sub', b, a, ty='float'))
+        dd = None
+        if diff is not None:
+            dd = '+' if self.all_sign(diff, '+') else '-' if self.all_sign(diff, '-') else None
+        if dd is None:
+            # no orientation: acceptable only if the cut is crossed continuously
+            if self.jump(self.leaves(f_items), self.leaves(t_items), prefix, a, b, atom, True) and \
+                    self.jump(self.leaves(f_items), self.leaves(t_items), prefix, a, b, atom, False):
+                return (out, None) if len(out) <= MAX_FORMS else (None, 'too many candidate forms')
+            return None, f'the value may jump where {_short(a)} = {_short(b)} and both sides of that comparison move with the input'
+        low, high = (f_items, t_items) if dd == '+' else (t_items, f_items)
+        lows, highs = self.leaves(low), self.leaves(high)
+        up = self.jump(lows, highs, prefix, a, b, atom, True)
+        down = self.jump(lows, highs, prefix, a, b, atom, False)
+        if up and down:
+            pass                      # continuous across the cut
+        elif up:
+            out = out | {((self.new_opaque('+'), Fraction(1)),)}
+        elif down:
+            out = out | {((self.new_opaque('-'), Fraction(1)),)}
+        else:
+            return None, f'the jump of the value where {_short(a)} = {_short(b)} has no provable sign'
+        return (out, None) if len(out) <= MAX_FORMS else (None, 'too many candidate forms')
+
+    def jump(self, lows, highs, prefix, a, b, atom, upward):
+        for (gl, vl) in lows:
+            for (gh, vh) in highs:
+                if vl is None or vh is None:
+                    continue
+                diff = E('sub', vh, vl, ty='float') if upward else E('sub', vl, vh, ty='float')
+                guards = [(gc, gp, None, None) for (gc, gp) in prefix] + list(gl) + list(gh) + \
+                         [(E('lt', a, b, ty='bool'), False, None, None), (E('lt', b, a, ty='bool'), False, None, None)]
+                if not self.prove(diff, guards, atom):
+                    return False
+        return True
 
     def leaves(self, items):
-        """[(guards, value)] when every remaining decision is independent of x, else None"""
-        out = []
-        for g, v in items:
-            for gg in g:
-                if isinstance(gg[0], E) and self.expr(gg[0]) != CONST:
-                    return None
-            out.append((g, v))
-        return out
+        """all (remaining guards, value) below a cut.  Guards that depend on the input themselves (further cuts) are kept as
+        constraints of the jump proof: a leaf that cannot be adjacent to the cut contradicts a = b and is discharged vacuously."""
+        return [(g, v) for g, v in items]
 
     def prove(self, diff, guards, atom):
         if self.prover_factory is None:
             return False
+        import time
+        key = (repr(diff), tuple((repr(g[0]), g[1]) for g in guards), atom)
+        if key in self.prove_memo:
+            return self.prove_memo[key]
         pr = self.prover_factory()
+        pr.t_end = time.time() + 3.0
+        pr.max_cases = 600
         try:
-            return bool(pr.prove_nonneg(diff, guards, atom))
+            r = bool(pr.prove_nonneg(diff, guards, atom))
         except Exception:
-            return False
+            r = False
+        self.prove_memo[key] = r
+        return r
 
 
 class _Refuse:
@@ -347,7 +642,6 @@ class _Refuse:
 
 
 def _as_lt(c):
-    """comparison c as (a, b) with c == (a < b) up to polarity handled by the caller; None if not a comparison of two numeric sides"""
     if not isinstance(c, E) or len(c.args) != 2:
         return None
     a, b = c.args
@@ -355,10 +649,6 @@ def _as_lt(c):
         return a, b
     if c.op == 'gt':
         return b, a
-    if c.op == 'le':          # a <= b  ==  not (b < a): the cut is the same, polarity differs; treat as (b < a) negated
-        return None
-    if c.op == 'ge':
-        return None
     return None
 
 
